@@ -605,7 +605,13 @@ def layer_import(ctx, n):
             with open(os.path.join(d, parts[-1] + '.py'), 'w') as f:
                 f.write('NAME = %r\nclass K:\n    attr = %r\n' % ('val%d' % i, 'kattr%d' % i))
             dotted = '.'.join(parts)
-            shape = rng.choice(['value', 'exists', 'pipe', 'class-attr', 'missing-module', 'missing-in-pipe', 'python-use'])
+            shape = rng.choice(['value', 'exists', 'pipe', 'class-attr', 'missing-module', 'missing-in-pipe', 'python-use',
+                                'dead-missing-under-false-condition', 'dead-missing-later-alternative', 'missing-under-on-error',
+                                'dead-existing-never-imported', 'dead-missing-in-unused-macro'])
+            flag = os.path.join(root, 'imported_%d.flag' % i)
+            with open(os.path.join(d, 'sidefx%d.py' % i), 'w') as f:
+                f.write('open(%r, "w").close()\nNAME = "side"\n' % flag)
+            side = '.'.join(parts[:-1] + ['sidefx%d' % i])
             if shape == 'value':
                 src, want = '<p>${import: %s.NAME}</p>' % dotted, '<p>val%d</p>' % i
             elif shape == 'exists':
@@ -619,6 +625,17 @@ def layer_import(ctx, n):
                 src, want = '<p tal:content="import: %s.nosuch.NAME">x</p>' % '.'.join(parts[:-1]), 'RAISED ImportError'
             elif shape == 'missing-in-pipe':
                 src, want = '<p tal:content="nothing.x | import: %s.nosuch.NAME">x</p>' % '.'.join(parts[:-1]), 'RAISED ImportError'
+            elif shape == 'dead-missing-under-false-condition':
+                # an expression in a part that is not rendered is never evaluated: the optional dependency may be absent
+                src, want = '<p tal:condition="False" tal:content="import: %s.nosuch.NAME">x</p>ok' % '.'.join(parts[:-1]), 'ok'
+            elif shape == 'dead-missing-later-alternative':
+                src, want = '<p tal:content="\'first\' | import: %s.nosuch.NAME">x</p>' % '.'.join(parts[:-1]), '<p>first</p>'
+            elif shape == 'missing-under-on-error':
+                src, want = '<p tal:on-error="string:ERR" tal:content="import: %s.nosuch.NAME">x</p>' % '.'.join(parts[:-1]), '<p>ERR</p>'
+            elif shape == 'dead-missing-in-unused-macro':
+                src, want = '<tal:c condition="False"><p metal:define-macro="m%d" tal:content="import: %s.nosuch.NAME">x</p></tal:c>ok' % (i, '.'.join(parts[:-1])), 'ok'
+            elif shape == 'dead-existing-never-imported':
+                src, want = '<p tal:condition="False" tal:content="import: %s.NAME">x</p><b tal:content="\'v\' | import: %s.NAME">x</b>' % (side, side), '<b>v</b>'
             else:
                 src, want = '<p tal:define="m import: %s" tal:content="m.NAME + m.K.attr">x</p>' % dotted, '<p>val%dkattr%d</p>' % (i, i)
             outs = []
@@ -631,6 +648,10 @@ def layer_import(ctx, n):
                     outs.append('RAISED %s: %s' % (type(e).__name__, str(e).split('\n')[0][:100]))
             ctx.mon('imports-compared')
             ctx.case(key=('import', shape, depth), nontrivial=True, sample={'source': src, 'rendered': outs} if i < 2 else None)
+            if shape == 'dead-existing-never-imported' and os.path.exists(flag):
+                ctx.violation('import-expression-evaluated-in-a-part-that-is-not-rendered',
+                              'template %r: the module %s was imported (its top-level code ran) although no import: expression was reached' % (src, side),
+                              {'kind': 'import', 'shape': shape, 'depth': depth})
             if outs != [want, want]:
                 ctx.violation('import-expression-differs:' + shape,
                               'template %r with fresh package %s (sub-modules not imported before): first/second rendering %r, expected %r'
